@@ -175,6 +175,8 @@ def run(chk):
     fa64 = chk.facts("asmjit/arm/a64assembler.cpp", funcs=r"a64::Assembler::_emit$")
     narrow.run_discard(chk, [e32, e64, cfg.find_fn(fa64, "a64::Assembler::_emit")], helpers)
 
+    from lib import writeoffset
+    writeoffset.run(chk)
     return chk.finish(
         level="other",
         explanation=("Structural clauses over CodeWriterUtils in /repo's current source: every success exit of the offset encoders is "
